@@ -15,6 +15,7 @@ import vcommon as V
 sys.path.insert(0, os.path.join(V.VERIF, "gen"))
 import C08_gen as G  # noqa
 import C08_gen2 as G2  # noqa
+import C08_gen3 as G3  # noqa
 
 
 FIXED_NOW = set()      # ids of findings with status "fixed" (or assumed fixed through C08_ASSUME_FIXED)
@@ -153,6 +154,8 @@ def schema_case(kind, doc, must_fail_full, must_fail_always, info=None):
 
 
 ATT_NAME = {(1, 1): "a", (1, 2): "b", (1, 3): "c", (3, 9): "u:ga", (4, 9): "v:zz", (2, 9): "t:tt"}
+for _i in range(1, 231):
+    ATT_NAME[(1, 100 + _i)] = "p%d" % _i
 ATT_BY_TEXT = {("|a"): (1, 1), "|b": (1, 2), "|c": (1, 3), "urn:u|ga": (3, 9), "urn:v|zz": (4, 9), "urn:t|tt": (2, 9)}
 
 
@@ -184,6 +187,43 @@ def at_case(kind, uses, wild, sets, via_group=False):
     req = G.request(model, [("main.xsd", doc), ("u.xsd", G.U_XSD)], "main.xsd", insts)
     return {"kind": kind, "request": req, "n": len(sets), "attr": True, "strict_penalty": [False] * len(sets),
             "info": {"uses": uses, "wild": wild}}
+
+
+for _i in range(1, 231):
+    ATT_BY_TEXT["|p%d" % _i] = (1, 100 + _i)
+
+
+def bigattr_cases(rng, thorough):
+    """types with 65..220 attribute declarations, several documents parsed one after the other by the same parser
+    objects with the cached grammar (the harness keeps the 8 parsers for all instances of a request line): per-attribute
+    'seen' bookkeeping of the scanners (fUIntPool rows beyond the first 64 ids) must not leak from one document to the
+    next: required / default / duplicate verdicts vs the Spec"""
+    cases = []
+    for n in ([66, 130, 200] if not thorough else [65, 66, 100, 129, 130, 200, 220]):
+        req_at = sorted({1, 63, 64, 65, 66, n - 1, n, rng.randrange(min(67, n), n + 1)})
+        dfl_at = sorted({2, 67 if n >= 67 else 3, n - 2} - set(req_at))
+        uses = []
+        for i in range(1, n + 1):
+            if i in req_at:
+                uses.append(((1, 100 + i), "r", "n", ""))
+            elif i in dfl_at:
+                uses.append(((1, 100 + i), "o", "d", "F"))
+            else:
+                uses.append(((1, 100 + i), "o", "n", ""))
+        full = [((1, 100 + i), "v") for i in range(1, n + 1) if i in req_at or i in dfl_at or i % 7 == 0 or i > n - 4]
+        sets = [full]
+        for drop in [r for r in req_at if r >= 64][:3]:
+            sets.append([x for x in full if x[0] != (1, 100 + drop)])
+            sets.append(full)
+        sets.append([x for x in full if x[0][1] - 100 in req_at])
+        sets.append([x for x in full if x[0][1] - 100 not in dfl_at])
+        sets.append([x for x in full if x[0] != (1, 100 + req_at[-1])])
+        sets.append([])
+        sets.append(full)
+        c = at_case("attribute-uses-many-declarations", uses, None, sets)
+        c["info"] = {"uses": [], "wild": None, "n_declarations": n}
+        cases.append(c)
+    return cases
 
 
 def feature_case(kind, doc, model_particle_text, items, info=None):
@@ -646,6 +686,13 @@ def gen_cases(ctx):
     # ---- 11. substitution groups through every content model implementation; 12. attribute-use derivation -------
     cases += G2.subst_cm_cases(rng, thorough)
     cases += G2.attderiv_cases(rng, thorough)
+    # ---- 13. one element against its declaration; 14. processContents trees; 15. UPA overlap; 16. restrictions that
+    #          omit base particles; 17. types with > 64 attribute declarations on re-used parsers ----------------------
+    cases += G3.elem_cases(rng, thorough)
+    cases += G3.pc_cases(rng, thorough)
+    cases += G3.upa_cases(rng, thorough)
+    cases += G3.restr_cases(rng, thorough)
+    cases += bigattr_cases(rng, thorough)
     return cases
 
 
@@ -717,7 +764,7 @@ def run(ctx):
                   "strict_penalty": r.get("strict_penalty", [False] * r.get("n", 0)),
                   "schema_expect": tuple(r["schema_expect"]) if r.get("schema_expect") else None,
                   "info": r.get("info", {}), "particle": r.get("particle"), "words": r.get("words"),
-                  "attr": r.get("attr"), "attwild": r.get("attwild"), "schema_verdict": r.get("schema_verdict"), "expect_cm": r.get("expect_cm"), "expect_kids": r.get("expect_kids")}]
+                  "attr": r.get("attr"), "attwild": r.get("attwild"), "schema_verdict": r.get("schema_verdict"), "expect_cm": r.get("expect_cm"), "expect_kids": r.get("expect_kids"), "custom": r.get("custom")}]
     else:
         cases = gen_cases(ctx)
     lines = [c["request"] for c in cases]
@@ -735,7 +782,8 @@ def run(ctx):
     kinds, codes_seen = {}, {}
     n_valid = n_invalid = 0
     divergences, shared, dis = [], [], []
-    known = {"C08-max0": 0, "C08-emptychoice": 0, "C08-emptyns": 0, "C08-prohibited": 0, "C08-nilfalse": 0, "C08-counting": 0, "C08-nilchildren": 0, "C08-attwild-anylist": 0, "C08-attwild-emptyunion": 0}
+    known = {"C08-max0": 0, "C08-emptychoice": 0, "C08-emptyns": 0, "C08-prohibited": 0, "C08-nilfalse": 0, "C08-counting": 0, "C08-nilchildren": 0, "C08-attwild-anylist": 0, "C08-attwild-emptyunion": 0,
+             "C08-nildefault": 0, "C08-mixedvc": 0, "C08-nilwhitespace": 0}
     notexpr_code = "E%d" % [k for k, v in names["E"].items() if v == "NotExpressibleWildCardIntersection"][0]
     prohibited_code = [k for k, v in names["V"].items() if v == "ProhibitedAttributePresent"][0]
     nviol = 0
@@ -753,19 +801,140 @@ def run(ctx):
         if per_kind[kd] <= 3 and sum(min(v, 3) for v in per_kind.values()) <= 15:
             ctx.violation(tag, payload, no_input=no_input)
 
+
+    upa_code = "V%d" % [k for k, v in names["V"].items() if v == "UniqueParticleAttributionFail"][0]
+    letter_of = {"NillNotAllowed": "N", "NoCharDataInCM": "C", "NilAttrNotEmpty": "E", "SimpleTypeHasChild": "H",
+                 "FixedDifferentFromActual": "F", "DatatypeError": "D"}
+    cls_finding = {"nildefault": "C08-nildefault", "mixedvc": "C08-mixedvc", "nilws": "C08-nilwhitespace"}
+
+    def code_letters(codes):
+        out = set()
+        for cd in codes.split(","):
+            if cd == "ok" or not cd:
+                continue
+            nm = names.get(cd[0], {}).get(int(cd[1:]), "?") if cd[1:].isdigit() else "?"
+            out.add(letter_of.get(nm, "X") if cd[0] == "V" else "X")
+            codes_seen[cd] = codes_seen.get(cd, 0) + 1
+        return out
+
+    def custom_eval(case, base, s0, s1, res, ml):
+        nonlocal n_valid, n_invalid
+        tag = case["custom"]
+        nm = lambda: [names.get(c[0], {}).get(int(c[1:]), c) for c in (s0 + "," + s1).split(",") if c[1:].isdigit()]
+        if tag in ("uc", "pr"):
+            ctx.count()
+            ctx.distinct((tag, case["request"][:300]))
+            if "DIS" in s0 or "DIS" in s1:
+                viol("schema", dict(base, what="scanners / APIs disagree on schema errors", s0=s0, s1=s1))
+                return
+            if s0 != "ok":
+                viol("schema", dict(base, what="schema reported as erroneous with schema-full-checking off", s0=s0, s1=s1, names=nm()))
+                return
+            if tag == "uc":
+                mv, sv = ml[:1] == "1", ml[1:2] == "1"
+                iv = upa_code in s1.split(",")
+                if s1 != "ok" and not iv:
+                    viol("schema", dict(base, what="two-leaf content model reported with an unexpected error", s1=s1, names=nm()))
+                elif iv != mv:
+                    if iv != sv:
+                        viol("divergence", dict(base, impl_conflict=iv, model_conflict=mv, spec_overlap=sv, s1=s1,
+                                                what="UPA verdict on two leaves differs from the model and from the Spec "
+                                                "(leaves_overlap: some name attributable to both leaves)"))
+                    else:
+                        viol("correspondence", dict(base, impl_conflict=iv, model_conflict=mv, spec_overlap=sv,
+                                                    what="m_conflict no longer follows XercesElementWildcard::conflict"), no_input=True)
+                elif mv != sv:
+                    viol("spec", dict(base, what="overlap test agrees with the model but not with the Spec (not a listed finding)"))
+                return
+            legal, incl = ml[:1] == "V", ml[1:2] == "i"
+            if legal and not incl:
+                viol("generator", dict(base, what="restriction judged legal but the derived language is not included in the base language"), no_input=True)
+                return
+            if (s1 == "ok") != legal:
+                viol("divergence", dict(base, s1=s1, names=nm(), spec_legal=legal,
+                                        what="restriction that omits particles of the base sequence: the schema loads with%s error "
+                                        "under full checking although Particle Valid (Restriction) Recurse (every omitted particle "
+                                        "emptiable, Spec nullable) says %s" % ("out" if s1 == "ok" else " an", "legal" if legal else "illegal")))
+            return
+        if s0 != "ok" or s1 != "ok":
+            viol("schema", dict(base, what="schema rendered from a valid typed schema model reported as erroneous", s0=s0, s1=s1, names=nm()))
+            return
+        mt = ml.split(" ")
+        if tag == "pw":
+            ctx.count()
+            codes = res[0][0] if res else "DIS"
+            if codes == "DIS" or len(res) != 1:
+                viol("divergence", dict(base, what="scanners / APIs / full-checking settings disagree on one instance", detail=str(res)[:600]))
+                return
+            iv, mv, sv = codes == "ok", mt[0][:1] == "V", mt[0][1:2] == "V"
+            code_letters(codes)
+            n_valid, n_invalid = n_valid + (1 if iv else 0), n_invalid + (0 if iv else 1)
+            if "S" in case["info"]["tree"] or "L" in case["info"]["tree"] or not iv:
+                ctx.distinct(("pw", case["request"][:300]))
+            if iv != mv:
+                if iv != sv:
+                    viol("divergence", dict(base, impl_valid=iv, model_valid=mv, spec_valid=sv, codes=codes,
+                                            what="processContents: verdict differs from the model and violates the Spec (tree_valid)"))
+                else:
+                    viol("correspondence", dict(base, impl_valid=iv, model_valid=mv, spec_valid=sv, codes=codes,
+                                                what="m_walk no longer follows scanStartTagNS / laxElementValidation"), no_input=True)
+            elif mv != sv:
+                viol("spec", dict(base, what="processContents verdict agrees with the model but violates the Spec (not a listed finding)"))
+            return
+        # tag == "ev"
+        if len(res) != case["n"] or len(mt) != case["n"]:
+            viol("protocol", dict(base, what="answer count mismatch", impl_n=len(res), model_n=len(mt)), no_input=True)
+            return
+        for k in range(case["n"]):
+            ctx.count()
+            codes, _, kids = res[k][:3]
+            if codes == "DIS":
+                viol("divergence", dict(base, instance=k, what="scanners / APIs / full-checking settings disagree on one instance", detail=res[k][1][:600]))
+                continue
+            verd, mcodes, mval, sval, cls = mt[k].split("@")
+            iv, mv, sv = codes == "ok", verd[0] == "V", verd[1] == "V"
+            n_valid, n_invalid = n_valid + (1 if iv else 0), n_invalid + (0 if iv else 1)
+            ctx.distinct((case["request"][:200], k))
+            il_ = code_letters(codes)
+            ml_ = set(x for x in mcodes.split(",") if x)
+            unhx0 = lambda h: "" if h == "-" else bytes.fromhex(h).decode("utf-8")
+            # white space in element-only content is reported as ignorable white space, not as character content
+            eo = case["info"].get("kind") in ("o", "O")
+            unhx = lambda h: "" if (eo and unhx0(h).strip(" \t\r\n") == "") else unhx0(h)
+            want_m, want_s = "c=" + G3.san(unhx(mval)), "c=" + G3.san(unhx(sval))
+            d = dict(base, instance=k, impl_valid=iv, model_valid=mv, spec_valid=sv, codes=codes, model_item=mt[k], kids=kids)
+            if iv != mv or (il_ != ml_) or (iv and kids != want_m):
+                spec_ok = (iv == sv) and (not iv or kids == want_s)
+                if not spec_ok:
+                    viol("divergence", dict(d, what="element against its declaration (xsi:nil / value constraint / content type): the "
+                                            "implementation differs from the model and violates the Spec (elem_valid / elem_value)"))
+                else:
+                    viol("correspondence", dict(d, what="m_elem_check no longer follows validateElement / sendCharData / checkContent "
+                                                "(verdict, error codes or reported value)", impl_codes=sorted(il_), model_codes=sorted(ml_)), no_input=True)
+                continue
+            if mv != sv or (mv and want_m != want_s):
+                fid = cls_finding.get(cls)
+                if fid and fid not in FIXED_NOW and ctx.find_known(fid):
+                    known[fid] += 1
+                else:
+                    viol("spec", dict(d, what="implementation and model agree but violate the Spec (elem_valid / elem_value), not a listed finding"))
+
     for case, il, ml in zip(cases, impl, model):
         kinds[case["kind"]] = kinds.get(case["kind"], 0) + 1
         s0, s1, res = parse_impl(il)
         base = {"kind": case["kind"], "request": case["request"], "n": case["n"], "info": case.get("info"),
                 "strict_penalty": case.get("strict_penalty"), "schema_expect": case.get("schema_expect"),
                 "particle": case.get("particle"), "attr": case.get("attr"), "attwild": case.get("attwild"), "schema_verdict": case.get("schema_verdict"), "expect_cm": case.get("expect_cm"), "words": case.get("words"), "expect_kids": case.get("expect_kids"),
-                "impl": il[:2000], "model": ml[:2000]}
+                "impl": il[:2000], "model": ml[:2000], "custom": case.get("custom")}
         cmcls = [t[3:] for t in il.split(" ")[:4] if t.startswith("cm=")]
         if cmcls:
             cm_classes[cmcls[0]] = cm_classes.get(cmcls[0], 0) + 1
         if case.get("expect_cm") and cmcls and cmcls[0] != case["expect_cm"]:
             viol("generator", dict(base, what="the schema shape no longer selects the intended XMLContentModel implementation",
                                    got=cmcls[0], want=case["expect_cm"]), no_input=True)
+        if case.get("custom"):
+            custom_eval(case, base, s0, s1, res, ml)
+            continue
         if case.get("schema_verdict"):
             # schema-level oracle: the schema loads with >= 1 error iff the Spec says the derivation is invalid
             ctx.count()
@@ -1034,6 +1203,14 @@ def run(ctx):
              "C08-wcsubset-absent": "a restriction whose attribute wildcard is a list containing ##local is accepted under a base "
                                     "wildcard ##other, which does not allow unqualified attributes (Wildcard Subset clause 3.2.2; "
                                     "proposed repair fixes/C08-wcsubset-absent.patch)",
+             "C08-nildefault": "xsi:nil=\"true\" on a nillable element whose declaration has a default (not fixed) value is rejected "
+                               "with NilAttrNotEmpty (3.3.4 clause 3.2.2 excludes only a fixed value constraint; checkContent tests "
+                               "elemDefaultValue without XSD_FIXED; proposed repair fixes/C08-nil-default.patch)",
+             "C08-mixedvc": "the value constraint of an element with mixed content is ignored: a fixed value is not compared with the "
+                            "content, element children and xsi:nil are accepted, a default is not reported for empty content "
+                            "(3.3.4 clauses 5.1, 5.2.2, 3.2.2; checkContent returns from the Mixed branch before the value constraint)",
+             "C08-nilwhitespace": "a nilled element with element-only content and white space between its tags is accepted (3.3.4 "
+                                  "clause 3.2.1: no character or element children; ignorable white space never reaches fDatatypeBuffer)",
              "C08-prohibited": "an attribute declared with use=prohibited (which corresponds to no attribute use at all) is "
                                "rejected with ProhibitedAttributePresent even when the type's attribute wildcard allows it"}
     for fid, nhit in known.items():
